@@ -19,7 +19,14 @@ META = {
         "empty worklist; the computed set is a fixpoint of the specified closure and is contained in every closed "
         "set (least fixpoint) — equivalently a value is live iff a chain of operand edges leads from it to an "
         "operand of a not-trivially-removable op or a boundary seed; hence the result is the same for any two "
-        "schedulers. Tie to /repo: generated functions/modules are analysed by the real DataFlowSolver + "
+        "schedulers. The Executable gating of dead_code_analysis.py is part of the model: ops of a block that is "
+        "not (yet) executable are skipped, a block marked executable after the liveness initialisation has all its "
+        "ops enqueued (Executable.on_update) and is handled by the worklist loop; solve_spec is proved for the "
+        "gated solver (only ops of eventually executable blocks demand/forward liveness), solve_spec_all_exec "
+        "gives the ungated statement when every block is executable at some time, load_order_independent that the "
+        "load order of DeadCodeAnalysis and LivenessAnalysis does not matter, never_exec_dead/nothing_executable "
+        "that never-executable blocks contribute nothing. Tie to /repo: generated functions/modules are analysed "
+        "under both load orders of the two analyses by the real DataFlowSolver + "
         "LivenessAnalysis with the unmodified deque and with `_worklist` replaced by a logging container popping "
         "at scheduler-chosen positions (FIFO, LIFO, ≥20 random orders; all orders for the small-scope "
         "enumeration); liveness per value and the sequence of popped work items are compared with the Lean model "
@@ -27,11 +34,15 @@ META = {
     ),
     "technique": "Lean 4 proof over a scheduler-parametric solver model + differential correspondence (liveness and pop trace per schedule) with the real solver",
     "level_note": (
-        "Statement covers supported IR only: ops in an executable block without regions/successors (the real "
+        "Statement covers supported IR only: ops without regions/successors (the real "
         "analysis raises NotImplementedError otherwise; that stream is only counted). With DeadCodeAnalysis only the "
         "entry block of the top-level op is executable, so functions are analysed one at a time (mode func) or with "
         "the test-suite idiom of marking blocks executable (mode module); running on a module with DeadCodeAnalysis "
-        "leaves function bodies unanalysed by design and is excluded. In dominance-ordered bodies the initial backward "
+        "(mode module_dca) leaves function bodies unanalysed by design (dead_code_analysis.py: 'only the entry block "
+        "of the top-level op's first region is marked as live'; sparse_analysis.py: 'If the parent block is not "
+        "executable, do nothing'): there the oracle demands exactly the boundary values (seeds/exits) live, as the "
+        "gated theorem says. Modes func/graph/module_dca run with DeadCodeAnalysis loaded before and after "
+        "LivenessAnalysis; all runs of a program must agree. In dominance-ordered bodies the initial backward "
         "walk already reaches the fixpoint (worklist stays empty); non-empty worklists come from graph-region "
         "module bodies (uses before defs, cycles) and from boundary values passed to set_to_exit_state after "
         "initialisation by a harness subclass of LivenessAnalysis. 'Not trivially removable' is "
@@ -40,7 +51,8 @@ META = {
         "correspondence), Python set/dict semantics, this harness."
     ),
     "rule": (
-        "case = one program (mode, op list with operand ids, seeds/exits); non-trivial = the reference marks at "
+        "case = one program (mode, op list with operand ids, seeds/exits), solved under both load orders of "
+        "DeadCodeAnalysis/LivenessAnalysis (second order: block ops enqueued on becoming executable); non-trivial = the reference marks at "
         "least one value live through a chain of ≥2 operand edges and leaves at least one value dead; distinct = "
         "distinct program JSON. Every program is solved with the untouched deque, FIFO, LIFO and ≥20 random schedules "
         "(small-scope programs: every schedule). Histogram counts programs per mode, schedules, pops, and programs "
@@ -79,7 +91,7 @@ FIXED_OUT = {"const": "i", "addi": "i", "muli": "i", "subi": "i", "xori": "i", "
 
 # ---------------------------------------------------------------------------------------------
 # case structure
-#   {"mode": "func"|"module"|"graph",
+#   {"mode": "func"|"module"|"module_dca"|"graph",
 #    "funcs": [{"public": bool, "args": "iim", "ops": [[kind, [operand ids], "result types"], ...]}],
 #    "seeds": [ids], "exits": [ids]}
 # value ids: per function, arguments first, then op results in op order; functions in order.
@@ -112,7 +124,10 @@ def reference(case: dict) -> list[bool]:
     operands, used by an op that is not trivially removable, or returned from a public function
     (or is one of the explicitly given boundary seeds)."""
     n = len(value_types(case))
-    ops = flat_ops(case)
+    # mode module_dca: DeadCodeAnalysis marks only the module's own block executable ("only the entry
+    # block of the top-level op's first region is marked as live"), the analysis documents that ops of
+    # non-executable blocks are not looked at: no op of a function body demands or forwards anything
+    ops = flat_ops(case) if case["mode"] != "module_dca" else []
     live = [False] * n
     todo: list[int] = []
 
@@ -140,7 +155,7 @@ def reference(case: dict) -> list[bool]:
 
 def chain_depths(case: dict, live: list[bool]) -> int:
     """longest shortest-distance (in operand edges) from a live value to a root; cheap proxy: BFS levels"""
-    ops = flat_ops(case)
+    ops = flat_ops(case) if case["mode"] != "module_dca" else []
     n = len(live)
     dist: list[int | None] = [None] * n
     frontier = []
@@ -300,9 +315,31 @@ def build(case: dict):
     return module, top, body_ops, vals, blocks
 
 
-def analyse(case: dict, chooser=None, verify: bool = False) -> dict:
-    """Run the real solver.  chooser=None: untouched deque.  Returns liveness bits, pop trace (op
-    indices), chosen indices, wbd flags, max worklist length."""
+ORDERS = ("dca_first", "live_first")
+
+
+def model_ops_of(case: dict, module, body_ops: list) -> list:
+    """the real ops in the order of the Lean model's op list (= pre-order of the initial walk's reverse):
+    func / module: the body ops; graph: the module block (body ops + the external func.func);
+    module_dca: every func.func followed by its body ops."""
+    mode = case["mode"]
+    if mode in ("func", "module"):
+        return list(body_ops)
+    if mode == "graph":
+        return list(module.body.block.ops)
+    out = []
+    for f in module.body.block.ops:
+        out.append(f)
+        for r in f.regions:
+            for b in r.blocks:
+                out.extend(b.ops)
+    return out
+
+
+def analyse(case: dict, chooser=None, verify: bool = False, order: str = "dca_first") -> dict:
+    """Run the real solver.  chooser=None: untouched deque.  `order`: DeadCodeAnalysis loaded before
+    (dca_first) or after (live_first) LivenessAnalysis.  Returns liveness bits, pop trace (indices into
+    the model op list), chosen indices, wbd flags, max worklist length."""
     from xdsl.analysis.dataflow import DataFlowSolver, ProgramPoint
     from xdsl.analysis.dead_code_analysis import DeadCodeAnalysis, Executable
     from xdsl.analysis.liveness_analysis import Liveness, LivenessAnalysis
@@ -326,9 +363,11 @@ def analyse(case: dict, chooser=None, verify: bool = False) -> dict:
     if case["mode"] == "module":
         for b in blocks:  # test-suite idiom (tests/analysis/test_liveness_analysis.py)
             solver.get_or_create_state(ProgramPoint.at_start_of_block(b), Executable).live = True
-    else:
+    elif order == "dca_first":
         solver.load(DeadCodeAnalysis)
     solver.load(LivenessWithExits if exits else LivenessAnalysis)
+    if case["mode"] != "module" and order != "dca_first":
+        solver.load(DeadCodeAnalysis)
     for v in case.get("seeds", []):  # test-suite idiom `_seed_live`
         solver.get_or_create_state(vals[v], Liveness).is_live = True
     wl = None
@@ -344,7 +383,7 @@ def analyse(case: dict, chooser=None, verify: bool = False) -> dict:
     for v in vals:
         st = solver.lookup_state(v, Liveness)
         bits.append(bool(st is not None and st.is_live))
-    index = {id(op): i for i, op in enumerate(body_ops)}
+    index = {id(op): i for i, op in enumerate(model_ops_of(case, module, body_ops))}
     trace: list[int] = []
     picks: list[int] = []
     if wl is not None:
@@ -352,7 +391,7 @@ def analyse(case: dict, chooser=None, verify: bool = False) -> dict:
             picks.append(i)
             trace.append(index.get(id(point.entity), -1))
     return {
-        "bits": bits, "trace": trace, "picks": picks, "err": err,
+        "bits": bits, "trace": trace, "picks": picks, "err": err, "order": order,
         "wbd": [bool(would_be_trivially_dead(op)) for op in body_ops],
         "max_wl": wl.max_len if wl is not None else None,
         "rest": len(wl) if wl is not None else 0,
@@ -370,10 +409,33 @@ def bits_str(bits) -> str:
     return "".join("1" if b else "0" for b in bits)
 
 
-def model_lines(case: dict, wbd: list[bool], scheds: list[list[int]]) -> list[str]:
+def model_lines(case: dict, wbd: list[bool], scheds: list[list[int]], order: str = "dca_first") -> list[str]:
+    """program for the Lean model: ops with their block ids, and which blocks are executable before
+    (`pre`) / become executable after (`post`) the initialisation of the liveness analysis"""
     lines = [f"reset {len(value_types(case))}"]
-    for (kind, ins, res, _p), w in zip(flat_ops(case), wbd):
-        lines.append(" ".join(map(str, ["op", int(w), len(ins), *ins, *res])))
+    mode = case["mode"]
+    oplines = [" ".join(map(str, ["op", int(w), len(ins), *ins, *res]))
+               for (kind, ins, res, _p), w in zip(flat_ops(case), wbd)]
+    dca = "pre 0" if order == "dca_first" else "post 0"
+    if mode in ("func", "graph"):
+        lines += oplines
+        if mode == "graph":
+            lines.append("op 1 0")           # the external func.func closing the module block
+        lines.append(dca)
+    else:
+        k = 0
+        for fi, f in enumerate(case["funcs"]):
+            n = len(f["ops"])
+            if mode == "module_dca":
+                lines += ["blk 0", "op 1 0", f"blk {fi + 1}"]       # the func.func op itself
+            else:
+                lines.append(f"blk {fi}")
+            lines += oplines[k:k + n]
+            k += n
+        if mode == "module_dca":
+            lines += ["blk 0", "op 1 0", dca]                      # func.func @ext; only block 0 is ever executable
+        else:
+            lines += [f"pre {fi}" for fi in range(len(case["funcs"]))]  # `.live = True` by hand
     lines += [f"seed {v}" for v in case.get("seeds", [])]
     lines += [f"exit {v}" for v in case.get("exits", [])]
     lines += [" ".join(["solve", *map(str, s)]) for s in scheds]
@@ -400,13 +462,13 @@ def random_choosers(rng, n: int):
     return out
 
 
-def all_schedules(case: dict, cap: int = 400):
+def all_schedules(case: dict, cap: int = 400, order: str = "dca_first"):
     """systematic exploration of every pop order of the real solver (small programs)"""
     runs = []
     stack: list[list[int]] = [[]]
     while stack and len(runs) < cap:
         prefix = stack.pop()
-        r = analyse(case, lambda k, n, p=prefix: p[k] if k < len(p) else 0)
+        r = analyse(case, lambda k, n, p=prefix: p[k] if k < len(p) else 0, order=order)
         runs.append(r)
         for k in range(len(prefix), len(r["picks"])):
             for alt in range(1, r["lens"][k]):
@@ -485,7 +547,7 @@ def gen_case(rng, mode: str, size: int) -> dict:
         case = {"mode": mode, "funcs": [{"public": True, "args": "", "ops": ops}]}
     else:
         funcs = []
-        nf = 1 if mode == "func" else rng.randint(1, 3)
+        nf = 1 if mode == "func" else rng.randint(1, 3)  # modes module, module_dca
         base = 0
         for _ in range(nf):
             args = "".join(rng.choice("iiim") for _ in range(rng.randint(0, 3)))
@@ -618,10 +680,12 @@ def evaluate(case: dict, runs: list[dict]) -> tuple[str, str, str, int] | None:
     return None
 
 
-def fails_with(case: dict, picks: list[int] | None) -> bool:
+def fails_with(case: dict, picks: list[int] | None, order: str = "dca_first") -> bool:
     runs = [analyse(case)]
+    if order != "dca_first":
+        runs.append(analyse(case, order=order))
     if picks is not None:
-        runs.append(analyse(case, lambda k, n, p=picks: p[k] if k < len(p) else 0))
+        runs.append(analyse(case, lambda k, n, p=picks: p[k] if k < len(p) else 0, order=order))
     return evaluate(case, runs) is not None
 
 
@@ -634,9 +698,9 @@ class Batch:
         self.expect: list[str] = []
         self.cases: list[tuple[int, int, dict]] = []
 
-    def add(self, case: dict, wbd: list[bool], runs: list[dict]) -> None:
+    def add(self, case: dict, wbd: list[bool], runs: list[dict], order: str = "dca_first") -> None:
         scheds = [r["picks"] for r in runs]
-        lines = model_lines(case, wbd, scheds)
+        lines = model_lines(case, wbd, scheds, order)
         exp = ["ok"] * (len(lines) - len(scheds)) + [obs_line(r) for r in runs]
         self.cases.append((len(self.lines), len(self.lines) + len(lines), case))
         self.lines += lines
@@ -652,14 +716,15 @@ class Batch:
         if i is not None:
             lo, hi, case = next(c for c in self.cases if c[0] <= i < c[1])
             self.ctx.mismatch("correspondence:C25/liveness",
-                              {"program": case, "lines": self.lines[lo:hi], "line": self.lines[i]},
+                              {"program": case, "lines": self.lines[lo:hi], "line": self.lines[i],
+                               "order": "live_first" if "post 0" in self.lines[lo:hi] else "dca_first"},
                               self.expect[lo:hi], out[lo:hi],
                               f"real solver `{self.expect[i]}` vs Lean model `{out[i]}` for `{self.lines[i]}`")
         self.lines, self.expect, self.cases = [], [], []
 
 
 def check_program(ctx: core.Ctx, batch: Batch, case: dict, nsched: int, exhaustive_sched: bool = False,
-                  verify: bool = False) -> None:
+                  verify: bool = False, second_order: bool = True, cap2: int = 400) -> None:
     base = analyse(case, None, verify=verify)          # the solver exactly as shipped (deque, FIFO)
     if exhaustive_sched:
         runs, complete = all_schedules(case)
@@ -673,10 +738,29 @@ def check_program(ctx: core.Ctx, batch: Batch, case: dict, nsched: int, exhausti
         raise core.InfraError("first schedule is not FIFO")
     if (base["bits"], base["err"]) != (fifo["bits"], fifo["err"]):
         raise core.InfraError("logging worklist in FIFO mode differs from the untouched deque: harness fault")
-    ctx.ev(len(runs) + 1)
+    # the other load order (LivenessAnalysis before DeadCodeAnalysis): the initial walk finds every block
+    # non-executable, DeadCodeAnalysis.initialize then enqueues the ops of the entry block
+    runs2: list[dict] = []
+    if second_order and case["mode"] != "module":
+        o2 = "live_first"
+        base2 = analyse(case, None, order=o2)
+        if exhaustive_sched:
+            runs2, complete = all_schedules(case, cap=cap2, order=o2)
+            if not complete:
+                ctx.count("schedules.exploration_capped.live_first")
+        else:
+            runs2 = [analyse(case, lambda k, n: 0, order=o2), analyse(case, lambda k, n: n - 1, order=o2)]
+            runs2 += [analyse(case, ch, order=o2) for ch in random_choosers(ctx.rng, max(4, nsched // 3))]
+        if (base2["bits"], base2["err"]) != (runs2[0]["bits"], runs2[0]["err"]):
+            raise core.InfraError("logging worklist in FIFO mode differs from the untouched deque: harness fault")
+        ctx.count("programs.both_load_orders")
+        ctx.count("schedules.live_first", len(runs2))
+        if any(r["trace"] for r in runs2):
+            ctx.count("programs.live_first.block_ops_enqueued")
+    ctx.ev(len(runs) + len(runs2) + 1)
     ctx.count(f"programs.{case['mode']}")
     ctx.count("schedules", len(runs))
-    ctx.count("pops", sum(len(r["picks"]) for r in runs))
+    ctx.count("pops", sum(len(r["picks"]) for r in runs + runs2))
     if max(r["max_wl"] or 0 for r in runs) >= 2:
         ctx.count("programs.worklist_held_2_or_more")
     if len({tuple(r["trace"]) for r in runs}) >= 2:
@@ -687,18 +771,23 @@ def check_program(ctx: core.Ctx, batch: Batch, case: dict, nsched: int, exhausti
     design = [KINDS[k][1] for k, _i, _r, _p in flat_ops(case)]
     if design != base["wbd"]:
         ctx.count("programs.design_flag_differs_from_would_be_trivially_dead")
-    verdict = evaluate(case, [base] + runs)
+    allruns = [base] + runs + runs2
+    verdict = evaluate(case, allruns)
     if verdict is not None:
         site, sig, desc, ri = verdict
-        picks = None if ri == 0 else runs[ri - 1]["picks"]
+        picks = None if ri == 0 else allruns[ri]["picks"]
+        order = allruns[ri]["order"]
         nfail = ctx.hist.get("failing_programs." + sig, 0)
         ctx.count("failing_programs." + sig)
-        small = shrink_case(case, lambda c: fails_with(c, picks)) if nfail < 3 else case
-        rs = [analyse(small)] + ([analyse(small, lambda k, n, p=picks: p[k] if k < len(p) else 0)] if picks is not None else [])
+        small = shrink_case(case, lambda c: fails_with(c, picks, order)) if nfail < 3 else case
+        rs = [analyse(small)] + ([analyse(small, order=order)] if order != "dca_first" else []) + \
+             ([analyse(small, lambda k, n, p=picks: p[k] if k < len(p) else 0, order=order)] if picks is not None else [])
         v2 = evaluate(small, rs) or verdict
-        ctx.fail(v2[0], v2[1], {"program": small, "schedule": picks}, v2[2],
+        ctx.fail(v2[0], v2[1], {"program": small, "schedule": picks, "order": order}, v2[2],
                  [obs_line(r) for r in rs], "live=" + bits_str(reference(small)))
     batch.add(case, base["wbd"], runs)
+    if runs2:
+        batch.add(case, base["wbd"], runs2, "live_first")
 
 
 def unsupported_stream(ctx: core.Ctx, n: int) -> None:
@@ -755,7 +844,9 @@ def run(ctx: core.Ctx) -> None:
             if ctx.time_left() < 0.3 * ctx.budget_s:
                 ctx.count(f"small_scope.{nxt}.truncated_by_budget")
                 break
-            check_program(ctx, batch, case, 0, exhaustive_sched=True)
+            # the second load order starts with all ops on the worklist (≥ (n+1)! pop orders): explore it
+            # for one program in twelve, at most 48 orders
+            check_program(ctx, batch, case, 0, exhaustive_sched=True, second_order=ctx.rng.random() < 0.08, cap2=48)
             ctx.count(f"small_scope.{nxt}.sampled")
     ctx.exhaustive = True
     ctx.extra["exhaustive_scope"] = (
@@ -764,8 +855,9 @@ def run(ctx: core.Ctx) -> None:
         f"order of the real solver; a random sample of those with {nxt} ops; random programs beyond")
     # 2. random programs: untouched deque + FIFO + LIFO + ≥ 20 random schedules each
     nsched = 20 if quick else 24
-    plan = [("func", 12, 120), ("module", 10, 100), ("graph", 10, 400), ("graph", 30, 80)] if quick else \
-           [("func", 16, 2500), ("module", 12, 2000), ("graph", 10, 8000), ("graph", 40, 1500), ("func", 60, 200)]
+    plan = [("func", 12, 120), ("module", 10, 100), ("module_dca", 8, 60), ("graph", 10, 400), ("graph", 30, 80)] if quick else \
+           [("func", 16, 2500), ("module", 12, 2000), ("module_dca", 10, 800), ("graph", 10, 8000), ("graph", 40, 1500),
+            ("func", 60, 200)]
     first = True
     for mode, size, count in plan:
         for _ in range(count):
@@ -786,20 +878,22 @@ def replay(ctx: core.Ctx, body: dict) -> int:
     c = body["case"]
     case = c["program"]
     picks = c.get("schedule")
+    order = c.get("order", "dca_first")
     if picks is None and str(c.get("line", "")).startswith("solve"):
         picks = [int(x) for x in c["line"].split()[1:]]
-    base = analyse(case)                                   # untouched deque
+    base = analyse(case, order=order)                      # untouched deque
     scheds: list[list[int]] = [[]] + ([list(picks)] if picks else [])
-    logged = [analyse(case, lambda k, n, p=sc: p[k] if k < len(p) else 0) for sc in scheds]
-    model = ctx.model("liveness", model_lines(case, base["wbd"], scheds))[-len(scheds):]
+    logged = [analyse(case, lambda k, n, p=sc: p[k] if k < len(p) else 0, order=order) for sc in scheds]
+    model = ctx.model("liveness", model_lines(case, base["wbd"], scheds, order))[-len(scheds):]
     impl = [obs_line(r) for r in logged]
     print("program        :", json.dumps(case))
+    print("load order     :", order, "(DeadCodeAnalysis before / after LivenessAnalysis)")
     print("schedules      :", scheds, "(positions popped; [] = FIFO)")
     print("untouched deque: live=" + bits_str(base["bits"]) + (f" raise {base['err']}" if base["err"] else ""))
     print("implementation :", impl)
     print("lean model     :", model)
     print("reference      : live=" + bits_str(reference(case)))
-    verdict = evaluate(case, [base] + logged)
+    verdict = evaluate(case, ([analyse(case)] if order != "dca_first" else []) + [base] + logged)
     print("property", "FAILS: " + verdict[2] if verdict else "holds", "on this case")
     if impl != model:
         print("correspondence : real solver and Lean model DIFFER on this case")
